@@ -298,7 +298,7 @@ def run_harness(h, workdir, tier, logdir, playback=False):
     r.maxrss_children_mb = ru.ru_maxrss // 1024
     r.timeout_hit = p.returncode in (124, 137)
     r.oom = ("std::bad_alloc" in out) or ("Out of memory" in out) or ("memory exhausted" in out.lower()) \
-        or ("ran out of memory" in out)
+        or ("ran out of memory" in out) or ("run out of memory" in out) or ("CBMC failed" in out)
     r.n_error_status = len(re.findall(r"- Status: ERROR", out))
     r.error = None
     if getattr(h, "unwindset_problem", None):
@@ -309,6 +309,11 @@ def run_harness(h, workdir, tier, logdir, playback=False):
         r.error = "no verdict (rc=%d%s)" % (p.returncode, ", out of memory" if r.oom else "")
     elif r.oom or r.n_error_status:
         r.error = "solver ran out of memory / CBMC reported ERROR status for %d checks" % r.n_error_status
+    elif r.verdict == "FAILED" and not r.failed:
+        # a failed run that names no failed check decided nothing (crashed back end): never a pass
+        r.error = "verification failed without a failed check (back end crashed?)"
+    elif r.verdict == "SUCCESSFUL" and r.checks_total == 0:
+        r.error = "no check was decided"
     return r
 
 
